@@ -112,6 +112,12 @@ def run_check(pid, tier, seed):
     if forbidden:
         broken.append(dict(what="forbidden-construct", hits=forbidden))
     axioms = sorted(set(a for l in rep["assumptions"].values() for a in l))
+    coqchk = None
+    if tier == "thorough" and ok and rep["ok"]:
+        ck_ok, ck_axioms, ck_tail = common.coqchk_axioms(pid)
+        coqchk = dict(ok=ck_ok, axioms_of_all_loaded_libraries=ck_axioms, output_tail=ck_tail)
+        if not ck_ok:
+            broken.append(dict(what="coqchk", log=ck_tail))
 
     # 3 ---- correspondence
     streams = []
@@ -198,7 +204,7 @@ def run_check(pid, tier, seed):
         traces_validated_against_impl=evals,
         streams=[{k: v for k, v in s.items() if k not in ("samples", "mismatches", "problems")} for s in streams],
         generated_files={k: (v is True) for k, v in gen_status.items()},
-        broken=broken, notes=notes, known_findings=kf_lines,
+        broken=broken, notes=notes, known_findings=kf_lines, coqchk=coqchk,
     )
     common.write_evidence(pid, tier, seed, coverage,
                           assumptions=TRUSTED_COMMON + list(getattr(mod, "ASSUMES", [])),
